@@ -3,6 +3,7 @@ package fw
 import (
 	"fmt"
 	"math/rand"
+	"strings"
 	"time"
 )
 
@@ -15,9 +16,11 @@ var c05Classes = map[string][]string{
 	"PS":   {"func", "structP", "value", "fieldV", "fieldP", "arg"},
 	"I":    {"func", "ifacevalue", "bind", "bindSame", "fieldV", "arg"},
 	"COMP": {"func", "value", "fieldV", "arg"},
+	// SPELL: one type written in two spellings ([]byte / []uint8, rune / int32, any / interface{})
+	"SPELL": {"func", "value", "fieldV", "arg"},
 }
 
-var c05ClassOrder = []string{"S", "PS", "I", "COMP"}
+var c05ClassOrder = []string{"S", "PS", "I", "COMP", "SPELL"}
 
 type c05T struct {
 	class  string
@@ -44,6 +47,18 @@ func c05Type(b *PB, class string, pkg int, withAlias bool) *c05T {
 	case "COMP":
 		el := b.NamedOf(pkg, "Elem", StructOf(FieldT{Name: "X", Ty: Basic("int")}), "none")
 		ct.T = []*Ty{SliceOf(el), MapOf(Basic("string"), el), ArrayOf(3, el), ChanOf("", el), FuncRet(el), StructOf(FieldT{Name: "E", Ty: el})}[b.next()%6]
+	case "SPELL":
+		pairs := [][2]*Ty{
+			{SliceOf(Basic("byte")), SliceOf(Basic("uint8"))},
+			{MapOf(Basic("string"), Basic("rune")), MapOf(Basic("string"), Basic("int32"))},
+			{SliceOf(Basic("any")), SliceOf(&Ty{K: "iface"})},
+			{ArrayOf(2, Basic("uint8")), ArrayOf(2, Basic("byte"))},
+			{PtrTo(Basic("int32")), PtrTo(Basic("rune"))},
+			{MapOf(Basic("byte"), &Ty{K: "iface"}), MapOf(Basic("uint8"), Basic("any"))},
+		}
+		pr := pairs[b.next()%len(pairs)]
+		ct.T, ct.alt = pr[0], pr[1]
+		return ct
 	}
 	if withAlias {
 		a := b.P.NewDecl(pkg, "AliasOfContested", ct.T, "")
@@ -199,7 +214,7 @@ func c05Case(id string, k1, k2, class, placement string, alias bool) (mut, ctl *
 		ct := c05Type(b, class, tpkg, alias)
 		t1 := ct.T
 		t2 := ct.T
-		if alias {
+		if alias || class == "SPELL" {
 			t2 = ct.alt
 		}
 		pkg1, pkg2 := 0, 0
@@ -285,6 +300,9 @@ func c05Case(id string, k1, k2, class, placement string, alias bool) (mut, ctl *
 			b.Set(0, "TopLevel", append(append([]Ref{}, g1...), g2...)...)
 			// an unrelated injector keeps the package a normal wire package
 			b.Inj("InitOther", other, false, false, nil, ItemRef(otherF.ID))
+			if class == "SPELL" {
+				return b.P, DiagName(b.P, ct.T) + "|" + DiagName(b.P, ct.alt), true
+			}
 			return b.P, ct.T.Key(b.P), true
 		case "unneeded-part":
 			all := append(append([]Ref{ItemRef(otherF.ID)}, g1...), g2...)
@@ -307,6 +325,10 @@ func c05Case(id string, k1, k2, class, placement string, alias bool) (mut, ctl *
 			result = u
 		}
 		b.Inj("Init", result, false, false, params, bl...)
+		if class == "SPELL" {
+			// wire may print either spelling of the one type
+			return b.P, DiagName(b.P, ct.T) + "|" + DiagName(b.P, ct.alt), true
+		}
 		return b.P, DiagName(b.P, ct.T), true
 	}
 	mut, name, ok = build(true)
@@ -413,7 +435,7 @@ func CheckC05(e *Env) int {
 						cellsSeen[fmt.Sprintf("%s+%s", k1, k2)] = true
 						via := pl == "unused-var(check)"
 						mut.Note, ctl.Note = cell, cell
-						cases = append(cases, &RejectCase{P: mut, Class: "conflict", MustName: []string{name}, Cell: cell, ViaCheck: via, Twin: ctl.ID})
+						cases = append(cases, &RejectCase{P: mut, Class: "conflict", MustName: strings.Split(name, "|"), Cell: cell, ViaCheck: via, Twin: ctl.ID})
 						cases = append(cases, &RejectCase{P: ctl, Control: true, Cell: "control:" + cell, ViaCheck: via})
 					}
 				}
